@@ -7,15 +7,42 @@ PROP = {'gen': [],
  'props_file': 'theories/Props/C01.v',
  'props_module': 'Props.C01',
  'corr_check': 'SNT.Corr.C01Corr.c01_check (model Render/Frame.v vs surf_n_term::render::TerminalRenderer driven through its public API '
-               'against a recording Terminal; predicate: reference terminal Render/Screen.v executes the implementation\'s commands and '
-               'must display show(S) after every frame)',
- 'level_text': 'work in progress',
- 'level_note': 'work in progress',
- 'technique': 'Coq proof (invariant over histories) + model/implementation correspondence on command lists + reference-terminal predicate',
- 'design_ref': 'DESIGN.md 6.1',
- 'n_quick': 2000,
- 'n_thorough': 40000,
+               'against a recording Terminal: same TerminalCommand list per operation; predicate Render/Spec.v spec_run: the reference '
+               'terminal Render/Screen.v executes the IMPLEMENTATION\'s commands from a blank screen and must display show(S) after every '
+               'frame, no protocol error)',
+ 'level_text': 'Coq theorems over an executable model of TerminalRenderer (new, surface, frame with its three passes, clear) and a '
+               'reference terminal: for every terminal size and every finite history of draws, frames, dropped frames, clear() and '
+               're-created renderers (unbounded length) over surfaces with arbitrary narrow/wide characters, faces, images and glyphs '
+               '(including cells behind wide characters and under images), after every frame the terminal displays exactly the '
+               'denotation of the drawn surface = what a naive painter leaves on a blank terminal, and no command is a protocol error '
+               '(C01_history, C01_history_final, C01_scratch); after clear()/new(clear=true) the next frame repaints every cell on an '
+               'arbitrary previous screen (C01_forced); show is characterised cell by cell (C01_show_is_denotation). Surfaces in which '
+               'two multi-cell objects share a cell are the recorded known class Overlap (C01_overlap_refuted). The model is tied to '
+               'the code by a differential run on command lists, and the property predicate is evaluated on the implementation\'s own '
+               'commands.',
+ 'level_note': 'Trusted: Coq kernel + vm_compute; the reference terminal Render/Screen.v (EraseChars = blanks in the current rendition, '
+               'clipped, cursor unmoved; CUP row clamp; images do not alter cells; an overwritten wide half leaves an Orphan cell that no '
+               'surface denotes); hand-written model Render/Frame.v validated by the correspondence run; oracle assumption: a space is '
+               'one column wide; three fix: commits in the crate (marks reset after use, wide-character extent, Option-tracked '
+               'face/cursor). No axioms (Print Assumptions: closed under the global context for all seven theorems).',
+ 'technique': 'Coq proof (invariant over histories; last-writer-wins fold invariant for pass 1; order-free "a correct cell stays correct" '
+              'argument for passes 2 and 3) + model/implementation correspondence on command lists + reference-terminal predicate on the '
+              'implementation\'s commands',
+ 'design_ref': 'DESIGN.md 6.1, design/C01.md',
+ 'n_quick': 3000,
+ 'n_thorough': 100000,
  'shard': 125,
  'level': 'proof',
- 'trusted_base': [KERNEL, HARNESS],
- 'assumptions': []}
+ 'trusted_base': [KERNEL,
+                  'reference terminal Render/Screen.v (exec): xterm/kitty meaning of Char, Face, CursorTo, EraseChars, Image, ImageErase; '
+                  'the naive painter show is the specification of "repainting from scratch"',
+                  'hand-written model Render/Frame.v of TerminalRenderer::{new, surface, frame, clear} (cell_extent, marks, three passes, '
+                  'flip), tied to the code by the correspondence run on exact command lists',
+                  'oracle tables (display width of the pool characters, image sizes in cells, glyph image identity) computed by the harness '
+                  'independently of the crate',
+                  HARNESS],
+ 'assumptions': ['the terminal executes exactly the commands the renderer issued (frames dropped by frames_drop are outside the claim)',
+                 'a space has display width 1 (oracle sanity); characters of width 0 and wide characters in the last column are outside '
+                 'the domain',
+                 'surfaces in which two multi-cell objects (wide characters, image/glyph rectangles) occupy a common cell are the known '
+                 'class Overlap']}
